@@ -10,6 +10,7 @@ Per history (a list of decoded events, see harness/props/_pipeline.py) two thing
 """
 from harness.props import _pipeline as P
 from harness.props import _namebufs as NB
+from harness.props import _dress as DR
 
 RULE = ('histories over the name lattice /a, /a/b, /a/b/c, /x (with/without implicit digest), 1-6 concurrent Interests incl. '
         'several per name, events Express+Await/Data/Nack/VDone/Cancel/Shutdown/AdvanceTo with event times drawn at, one '
@@ -123,6 +124,18 @@ def run(ctx):
         for k in range(ctx.n(400, 5000)):
             base = P.rand_history_deferred(ctx.rng, fe) if k % 4 == 3 else P.fix_digest_names(P.rand_history(ctx.rng, fe, wf=True))
             P.check_history(ctx, fe, NB.randomised(ctx.rng, fe, base), 'random-buffers', 'C03')
+        # packet dress: what the Data / Nack looks like and how it is delivered (bare / NDNLPv2 LpPacket with header fields),
+        # MustBeFresh / HopLimit on the Interest - nothing of it may change an outcome
+        for tag, h in DR.family(fe, full=ctx.thorough):
+            P.check_history(ctx, fe, h, tag, 'C03')
+        for tag, h in DR.transformed(fe, P.targeted(fe) + (P.deferred_family(fe, full=False) if ctx.thorough else []),
+                                     full=ctx.thorough):
+            P.check_history(ctx, fe, h, tag, 'C03')
+        for k in range(ctx.n(500, 6000)):
+            base = P.rand_history_deferred(ctx.rng, fe) if k % 4 == 3 else P.fix_digest_names(P.rand_history(ctx.rng, fe, wf=True))
+            if k % 5 == 4:
+                base = NB.randomised(ctx.rng, fe, base)
+            P.check_history(ctx, fe, DR.randomised(ctx.rng, fe, base), 'random-dressed', 'C03')
         n = ctx.n(900, 8000)
         for k in range(n):
             wf = ctx.rng.random() < 0.85
